@@ -17,7 +17,7 @@ PART = {
   "C02": dict(
     imports=["Carquet.Properties.C02.Cursor"],
     obligations=_OBL,
-    components=["cursor", "batlate"],
+    components=["cursor", "batlate", "schema"],
     fidelity={"Impl.ColumnReader": "exact (from a decoded page onwards; page load abstracted to decoded page | failure)",
               "Impl.BatchReader": "exact (OpenMP loops in index order)"},
     rule=_RULE,
